@@ -145,11 +145,16 @@ def fromstrAnswer (t : List Char) : String :=
         | .ok (s, items) => "ok:" ++ String.ofList s ++ ":" ++ tconsStr items
         | .error e => "err:" ++ e.name
       else
-        match Vers.constraintTexts constraints with
+        match Vers.constraintBody constraints with
         | .error e => "err:" ++ e.name
-        | .ok texts =>
-            "raw:" ++ String.ofList scheme ++ ":" ++
-              ",".intercalate (texts.map (fun p => rawItem (Vers.conFromString stubVer p)))
+        | .ok .star => "raw:" ++ String.ofList scheme ++ ":" ++ rawItem (Vers.conFromString stubVer ['*'])
+        | .ok (.texts texts) =>
+            -- a star inside the list is rejected by the loop itself
+            let item (p : List Char) : String :=
+              match Vers.conFromString stubVer p with
+              | .ok .star => "!ValueError"
+              | r => rawItem r
+            "raw:" ++ String.ofList scheme ++ ":" ++ ",".intercalate (texts.map item)
 
 def hexList (l : List (List Char)) : String :=
   if l.isEmpty then "[]" else ",".intercalate (l.map hex)
